@@ -386,6 +386,26 @@ func r03_3(c *Ctx, rule string) {
 	}
 	// the record of the last child is updated in the live slice
 	c.ObNoStaleElementStores(rule, fn, 1, "validator record (last child of an open directory)")
+	// ... and for every accepted element, whatever its kind: the next element
+	// must be compared with this one
+	isLastStore := func(in ssa.Instruction) bool {
+		st, ok := in.(*ssa.Store)
+		if !ok {
+			return false
+		}
+		fa, ok := st.Addr.(*ssa.FieldAddr)
+		if !ok || eng.FieldOwnerName(fa.X.Type(), fa.Field) != "fsutil.parent.last" {
+			return false
+		}
+		return c.DerivesFrom(st.Val, func(y ssa.Value) bool { return c.isCallValueTo(y, "path/filepath.Base") }, 3)
+	}
+	// (the error parameter is nil on the accepting paths; it is the last parameter)
+	errNil := map[string]bool{"(p:" + fn.Params[len(fn.Params)-1].Name() + "==nil)": true}
+	if hit, und := c.SuccessAvoiding(fn, nil, errNil, nil, isLastStore); und {
+		c.R.Undecided(rule, base+"/accepted-is-recorded", c.P.Pos(fn.Pos()), "state limit")
+	} else {
+		c.R.Check(hit == nil, rule, base+"/accepted-is-recorded", c.P.Pos(fn.Pos()), "every accepted element becomes the last child of its directory", "an element (e.g. a delete) can be accepted without being recorded as the last child of its directory: the next element is compared with a stale sibling, so a repeated or descending name is accepted")
+	}
 	// dir != open dir
 	var dcmp *ssa.BinOp
 	eng.Instrs(fn, func(in ssa.Instruction) {
@@ -860,9 +880,9 @@ func r03_7(c *Ctx, rule string) {
 		return
 	}
 	n := 0
-	for _, call := range c.P.CallsTo(hc, "(io/fs.FileInfo).IsDir") {
+	for _, call := range c.P.CallsTo(hc, "(io/fs.FileInfo).IsDir", "(io/fs.FileInfo).Mode") {
 		recv := call.Common().Value
-		if eng.Strip(recv) == ssa.Value(hc.Params[3]) {
+		if eng.Canon(recv) == ssa.Value(hc.Params[3]) {
 			continue
 		}
 		n++
